@@ -101,6 +101,7 @@ def prog_event(tid, o, i, fl, placement):
         inst = None
         eff_o = o
         skipexec = False
+        starfree = False
         if base in ('function', 'emulate', 'emulate_sigattr', 'auto', 'auto_global', 'auto_closure', 'auto_attr', 'auto_attr2', 'auto_deco_noop'):
             fn = g['w']
             codes = {fn.__wrapped__.__code__} if base in ('emulate', 'emulate_sigattr') else {fn.__code__}
@@ -159,7 +160,7 @@ def prog_event(tid, o, i, fl, placement):
                 codes = {code, g['run'].__code__}
                 # all that can be said: the wrapper forwards to run, whose own callee is not known (run's plain signature)
                 declared, agree = outcome_full(declared_thunk(inst.w, g['run'], dict(fl, n=fl['n'] + 1)), fns), 'ps'
-                skipexec = True      # what the swapped callee accepts is, by construction, not what anything visible says
+                starfree = True      # what the swapped callee accepts is, by construction, not what anything visible says
         reported = outcome_full(lambda: sigtools.signature(fn), fns)
         others = [retrieve(lambda: sigtools.signature(fn, auto=False))] if not (unbound or auto) else []
         if 'emulate' in base:
@@ -169,14 +170,14 @@ def prog_event(tid, o, i, fl, placement):
         maxpos = progs.npos(eff_o) + progs.npos(i) + 1 + fl['n']
         if skipexec:
             # the callee parameter h must keep its default to be callable: only calls that do not touch it are executed
-            names = [] if base.startswith('auto_carrier') else [n for n in names if n != 'h']
+            names = [n for n in names if n != 'h']
             maxpos = 0
         bo, bi, other = progs.execute(fn, names, maxpos, codes, first=inst if unbound else None)
     finally:
         progs.drop_cache(fname)
     return {'tid': tid, 'op': 'fwdprog', 'o': eff_o, 'i': i, 'fl': fl, 'bound': False, 'reported': reported, 'others': others, 'plain': plain,
             'allow_fallback': unbound or auto, 'auto': auto, 'declared': declared, 'agree': agree,
-            'bad_outer': bo, 'bad_inner': bi, 'other_exc': other, 'placement': placement, 'maxpos': maxpos, 'kwpool': names, 'skipexec': skipexec,
+            'bad_outer': bo, 'bad_inner': bi, 'other_exc': other, 'placement': placement, 'maxpos': maxpos, 'kwpool': names, 'skipexec': skipexec, 'starfree_only': starfree,
             'case': {'o': o, 'i': i, 'fl': fl, 'placement': placement, 'src': src}}
 
 
